@@ -5,8 +5,9 @@
       2. for every plug in order: for every export (name, kind) of the plug's WORLD in order, find the
          socket import to feed: the import of exactly that name ([IndexMap::get]) or else the FIRST
          socket import (world import order) whose name is [are_semver_compatible] with the export
-         name; keep the pair if the export's kind is a subtype of the import's kind.  Then, for the
-         kept pairs in order: instantiate the plug at the first pair (lazily, once), alias the export,
+         name; keep the pair if the export's kind is a subtype of the import's kind.  The kept
+         pairs are made unique per socket import (exact name preferred; repair 7db12e7).  Then, for
+         the pairs in order: instantiate the plug at the first pair (lazily, once), alias the export,
          [set_instantiation_argument] on the socket.  Any error becomes [GraphError] (the underlying
          variant is kept here);
       3. [NoPlugHappened] iff the socket instantiation has no argument;
@@ -47,6 +48,26 @@ Definition plug_matches (text : name -> str) (sub : kid -> kid -> bool) (imps ex
                      | Some (m, t) => if sub (snd e) t then [(fst e, m)] else []
                      | None => []
                      end) exps.
+
+(** [unique_exports]: one pair per socket import.  The first pair for an import keeps its position; a
+    later pair for the same import only replaces the export name, and only when its name is exactly
+    the import's ([if plug_name == socket_name { existing.0 = plug_name }]). *)
+Fixpoint replace_first (m e : name) (acc : list (name * name)) : list (name * name) :=
+  match acc with
+  | [] => []
+  | (e0, m0) :: r => if N.eqb m0 m then (e, m0) :: r else (e0, m0) :: replace_first m e r
+  end.
+
+Definition unique_step (acc : list (name * name)) (em : name * name) : list (name * name) :=
+  if existsb (fun p => N.eqb (snd p) (snd em)) acc
+  then (if N.eqb (fst em) (snd em) then replace_first (snd em) (fst em) acc else acc)
+  else acc ++ [em].
+
+Definition unique_pairs (raw : list (name * name)) : list (name * name) := fold_left unique_step raw [].
+
+(** the pairs that are wired for one plug *)
+Definition plug_pairs (text : name -> str) (sub : kid -> kid -> bool) (imps exps : list item)
+  : list (name * name) := unique_pairs (plug_matches text sub imps exps).
 
 (** the second inner loop: [inst] is [plug_instantiation]; [None] in the result = loop finished *)
 Fixpoint wire (u : universe) (s : gstate) (sock : nat) (pid : pkgid) (inst : option nat)
@@ -89,7 +110,7 @@ Fixpoint plug_loop (pu : puniverse) (s : gstate) (sock : nat) (imps : list item)
       | inr ps => (s, Some (PPanic ps))
       | inl None => (s, Some (PPanic PBadUniverse))
       | inl (Some exps) =>
-          match wire pu s sock p None (plug_matches (pu_name_text pu) (u_sub pu) imps exps) with
+          match wire pu s sock p None (plug_pairs (pu_name_text pu) (u_sub pu) imps exps) with
           | (s1, None) => plug_loop pu s1 sock imps r
           | (s1, Some o) => (s1, Some o)
           end
